@@ -98,8 +98,9 @@ class PriorityID(enum.IntEnum):
 
 class SourceStructure:
 
-    def __init__(self, source: str):
+    def __init__(self, source: str, atok):
         self.source = source
+        self.atok = atok
         self.sections = None
         self.construct()
 
@@ -107,6 +108,14 @@ class SourceStructure:
         self.sections = {}
         sec = "DEFAULT"
         is_divider_read = False
+
+        # Lines in statements, such as those in doc strings and formulas,
+        # are not section dividers
+        stmt_lines = set()
+        for stmt in self.atok.tree.body:
+            stmt_lines.update(range(
+                stmt.first_token.start[0] - 1, stmt.last_token.end[0]))
+
         for i, line in enumerate(self.source.split("\n")):
             if is_divider_read:
                 sec = next(
@@ -116,7 +125,8 @@ class SourceStructure:
                 is_divider_read = False
                 self.sections[i] = sec
             else:
-                if line.strip() == SECTION_DIVIDER:
+                if (line.strip() == SECTION_DIVIDER
+                        and i not in stmt_lines):
                     is_divider_read = True
 
     def get_section(self, lineno):
@@ -996,8 +1006,8 @@ class ModelReader:
     def parse_source(self, path_, obj: Interface):
 
         src = ziputil.read_str_utf8(path_)
-        srcstructure = SourceStructure(src)
         atok = asttokens.ASTTokens(src, parse=True)
+        srcstructure = SourceStructure(src, atok)
 
         for i, stmt in enumerate(atok.tree.body):
             sec = srcstructure.get_section(stmt.lineno)
